@@ -42,6 +42,7 @@ func init() {
 		"math.Ceil":                     extMath1(func(x string) string { return fmt.Sprintf("(- (to_real (to_int (- %s))))", x) }),
 		"math.Abs":                      extMath1(func(x string) string { return fmt.Sprintf("(ite (>= %s 0.0) %s (- %s))", x, x, x) }),
 		"unicode/utf8.RuneCountInString": extRuneCount,
+		"fmt.Sprintf":                    extSprintf,
 	}
 }
 
@@ -501,4 +502,19 @@ var _ = strings.TrimSpace
 func (u *Universe) declareCounting() {
 	u.global("(declare-fun nlcum ((Array Int Int) Int) Int)")
 	u.global("(declare-fun lstartraw ((Array Int Int) Int) Int)")
+}
+
+// fmt.Sprintf("%v", x): the result is a function of the value (fmtv); other formats: some string.
+func extSprintf(fr *frame, st *state, c *ssa.CallCommon, args []string, pos token.Pos) []string {
+	fc := fr.fc
+	sc := fc.sc
+	format, ok := litOf(c.Args[0])
+	r := sc.declare("sprintf", "Str")
+	sc.assume(fmt.Sprintf("(and (<= 0 (slo %s)) (<= (slo %s) (shi %s)))", r, r, r))
+	if ok && format == "%v" {
+		fc.e.u.global("(declare-fun sf_fmtv (Val) Str)")
+		x := fmt.Sprintf("(select (select %s (sref %s)) (+ (soff %s) 0))", fc.hget(st, fc.e.u.arrKey(types.NewInterfaceType(nil, nil))), args[1], args[1])
+		sc.assume(fmt.Sprintf("(= %s (sf_fmtv %s))", r, x))
+	}
+	return []string{r}
 }
